@@ -13,17 +13,7 @@ import (
 	"github.com/buildbarn/bb-storage/pkg/digest"
 
 	"verif/lib/gen"
-	"verif/lib/run"
 )
-
-// caseRng derives the case's generator from c.Rng (which is determined by
-// seed, worker, group and case index, so replay stays exact) and mixes the
-// seed in once more: gen.New combines its seeds by XOR/add only, so for small
-// seeds (1, 2, 3) the eight workers would otherwise draw the same eight
-// streams in a different order and the seeds would explore identical cases.
-func caseRng(c *run.Case, w *run.Worker) *gen.Rng {
-	return gen.New(c.Rng.Uint64(), w.Seed*0xd6e8feb86659fd93+0x632be59bd9b4e019, uint64(w.Index)+1)
-}
 
 func split(n string) []string {
 	if n == "" {
